@@ -384,6 +384,7 @@ func init() {
 				structShapeRule(c, "C09.R3")
 				globalsRule(c, "C09.R3")
 			}},
+			{ID: "C09.R4", Doc: "RESULT-FRESH: every deriving operation that returns a container returns one allocated inside the call on every return (never the receiver, its ego, the argument or an element)", Run: c09ResultFresh},
 		},
 	})
 	register(&Property{
@@ -399,6 +400,46 @@ func init() {
 			{ID: "C08.R5", Doc: "OWN (package-wide): mutators write only spines of their receiver", Run: func(c *Ctx) { c.R.Floor("C08.R5", ownRule(c, "C08.R5"), 8) }},
 		},
 	})
+}
+
+// c09ResultFresh: the container a deriving operation returns is FRESH on every return.
+func c09ResultFresh(c *Ctx) {
+	a := c.E3()
+	n := 0
+	for _, name := range implNames(c, isDeriver) {
+		fn := a.ByName(name)
+		if fn == nil {
+			continue
+		}
+		res := fn.Signature.Results()
+		if res.Len() != 1 || !a.isContainerish(res.At(0).Type()) {
+			continue
+		}
+		n++
+		s := a.sum[fn]
+		ob := c.Ob("C09.R4", "container-result/"+name, fn.Pos())
+		bad := -1
+		for i, o := range s.RetEach {
+			if o&oROOTS != oFRESH {
+				bad = i
+				break
+			}
+		}
+		switch {
+		case len(s.RetEach) == 0:
+			ob.Undecided("no return found")
+		case bad >= 0:
+			pos := ""
+			if bad < len(s.RetPos) {
+				pp := c.Fset.Position(s.RetPos[bad])
+				pos = " at " + shortPos(pp.Filename) + ":" + itoa(pp.Line)
+			}
+			ob.Fail("the returned container has origin %s on the return%s: the result is (or may be) the receiver, an argument or an element, so a later mutation of one shows in the other", s.RetEach[bad], pos)
+		default:
+			ob.Ok("the returned container has origin FRESH on each of its %d returns", len(s.RetEach))
+		}
+	}
+	c.R.Floor("C09.R4", n, 12)
 }
 
 // c09GoTyped: Go-typed exports ([]any, map[string]any, typed slices) are built in FRESH memory.
